@@ -164,8 +164,16 @@ func loadKnown() {
 // IsKnown says whether the root-cause key is listed as a known finding.
 func IsKnown(key string) bool {
 	knownOnce.Do(loadKnown)
-	_, ok := known[key]
-	return ok
+	if _, ok := known[key]; ok {
+		return true
+	}
+	// a listed key ending in "*" covers the family of root causes with that prefix
+	for k := range known {
+		if strings.HasSuffix(k, "*") && strings.HasPrefix(key, strings.TrimSuffix(k, "*")) {
+			return true
+		}
+	}
+	return false
 }
 
 // Violation reports a violation with a root-cause key. A key listed under "known" in
